@@ -889,6 +889,19 @@ impl<'a> Interp<'a> {
         }
     }
 
+    /// short description of what kind of op an id names
+    pub fn op_kind(&self, o: &Oid) -> &'static str {
+        match self.ctx.index.get(o).map(|i| &self.ctx.ops[*i].act) {
+            Some(Act::MarkBegin { .. }) => "mark-begin",
+            Some(Act::MarkEnd(_)) => "mark-end",
+            Some(Act::Make(_)) => "make",
+            Some(Act::Put(_)) => "put",
+            Some(Act::Del) => "delete",
+            Some(Act::Inc(_)) => "increment",
+            None => "unknown",
+        }
+    }
+
     pub fn has_op(&self, o: &Oid) -> bool {
         self.ctx.index.contains_key(o)
     }
